@@ -61,6 +61,10 @@ type Options struct {
 	// Poll replaces the default poll behaviour (return nil when kicked or
 	// "always changed", or when ctx ends).
 	Poll func(ctx context.Context, r *Root) error
+	// ScanNotPreemptable makes Scan sleep its latency without watching the
+	// context (a slow scan that cannot be interrupted, which the Endpoint
+	// contract allows: local endpoints are not preempted by Shutdown either).
+	ScanNotPreemptable bool
 }
 
 // Root is one scripted synchronization root. Endpoints connected to it answer
@@ -324,7 +328,9 @@ func (e *Endpoint) Scan(ctx context.Context, ancestor *core.Entry, full bool) (*
 	cyc := int(e.cycle.Add(1))
 	ev := e.root.J.Begin(Event{Op: OpScan, Session: e.session, Root: e.root.Path, Alpha: e.alpha, Instance: e.inst, Cycle: cyc,
 		Full: full, AncestorNil: ancestor == nil, Ancestor: gen.Describe(ancestor)})
-	if sleepCtx(ctx, e.root.delay(OpScan)) {
+	if e.root.opts.ScanNotPreemptable {
+		time.Sleep(e.root.delay(OpScan))
+	} else if sleepCtx(ctx, e.root.delay(OpScan)) {
 		err := ctx.Err()
 		e.root.J.Finish(ev, func(x *Event) { x.Cancelled = true; x.Err = err.Error() })
 		return nil, err, false
